@@ -39,6 +39,11 @@ const v6Latency = time.Second
 // (1.1s per such answer: three of them plus an honest one still end before the 3.5s deadline).
 const v6PartialGap = 100 * time.Millisecond
 
+// v6AtEndLatency: an answer that arrives exactly as the caller gives up takes 1.2s, so that the cancellation
+// it triggers never coincides with the answer to a concurrent second request (whole seconds) or with a deadline
+// (1.1 + 1.1 + 1.2 = 3.4 < 3.5).
+const v6AtEndLatency = 1200 * time.Millisecond
+
 var v6Loopback = ma.StringCast("/ip4/127.0.0.1/tcp/4001")
 
 // ---------------------------------------------------------------------------
@@ -88,6 +93,8 @@ type v6Stream struct {
 
 	key       string // request key, set by the endpoint
 	honestLen int    // > 0: the endpoint delivered a complete honest response of that many bytes
+	endAfter  int    // > 0: "the answer arrives exactly as the caller gives up": the caller's context is cancelled
+	endFired  bool   // synchronously inside Read, once endAfter bytes were consumed or EOF is about to be returned
 	nRead     int
 }
 
@@ -117,14 +124,29 @@ func (s *v6Stream) Read(b []byte) (int, error) {
 			s.in = s.in[n:]
 			s.nRead += n
 			full := s.honestLen > 0 && s.nRead == s.honestLen
+			fire := s.endAfter > 0 && !s.endFired && s.nRead >= s.endAfter
+			if fire {
+				s.endFired = true
+			}
 			key := s.key
 			s.mu.Unlock()
 			if full {
 				s.w.markHonestRead(key)
 			}
+			if fire {
+				s.w.endCaller(key)
+			}
 			return n, nil
 		case s.inEOF:
+			fire := s.endAfter > 0 && !s.endFired
+			if fire {
+				s.endFired = true
+			}
+			key := s.key
 			s.mu.Unlock()
+			if fire {
+				s.w.endCaller(key)
+			}
 			return 0, io.EOF
 		}
 		if len(b) == 0 {
@@ -231,6 +253,15 @@ func (s *v6Stream) deliver(b []byte, honest bool) {
 	}
 	s.signal()
 	s.mu.Unlock()
+}
+
+// deliverAtEnd is deliver, and the caller's context ends the moment the client has consumed the response:
+// after `consume` bytes (what a single-message reader takes) or, at the latest, when it is handed EOF.
+func (s *v6Stream) deliverAtEnd(b []byte, honest bool, consume int) {
+	s.mu.Lock()
+	s.endAfter = consume
+	s.mu.Unlock()
+	s.deliver(b, honest)
 }
 
 // deliverPartial hands bytes to the client without ending the stream.
@@ -350,6 +381,16 @@ type v6World struct {
 	arrivedBy  map[string][]string // ... per request key
 	honestRead map[string]bool     // request key -> a complete honest response was read by the client
 	harnessErr string
+	cancelCall func() // cancels the context the getter was called with
+}
+
+// endCaller cancels the caller's context; it runs on the client's own goroutine, inside stream.Read, so the
+// request returns its (complete) response to the getter with the context already done.
+func (w *v6World) endCaller(key string) {
+	w.logf("caller's context cancelled as the last byte of the answer to %s is read", key)
+	if w.cancelCall != nil {
+		w.cancelCall()
+	}
 }
 
 func v6NewWorld(tab map[string]map[string][]byte) *v6World {
@@ -431,7 +472,11 @@ func (w *v6World) endpoint(s *v6Stream) {
 	s.key = key
 	s.mu.Unlock()
 	w.logf("req %s #%d -> %s", key, i, ans)
-	if !w.pause(s, v6Latency) {
+	lat := v6Latency
+	if _, atEnd := v6AtEndOf(ans); atEnd {
+		lat = v6AtEndLatency
+	}
+	if !w.pause(s, lat) {
 		w.logf("req %s #%d abandoned by the client before the answer", key, i)
 		return
 	}
@@ -452,6 +497,16 @@ func (w *v6World) endpoint(s *v6Stream) {
 	case "ratelimit":
 		s.resetRemote(network.StreamRateLimited)
 	default:
+		if inner, atEnd := v6AtEndOf(ans); atEnd {
+			b, ok := w.tab[key][inner]
+			if !ok {
+				w.fail("no bytes prepared for request %s answer %s", key, ans)
+				s.resetRemote(0)
+				return
+			}
+			s.deliverAtEnd(b, inner == "honest", v6ConsumedBy(key, b))
+			return
+		}
 		if k, isPart := v6PartialOf(ans); isPart {
 			b, ok := w.tab[key]["part:"+k]
 			if !ok {
